@@ -231,10 +231,20 @@ class WeightDomain:
         if n in ("eq", "ne") and len(a) == 2:
             x, y = a
             if isinstance(x, W) and isinstance(y, W):
-                if y.kind == "one" and x.kind == "var":
-                    return ("cond", "eq1", x.f, n == "ne")
                 if x.kind == "one" and y.kind == "var":
-                    return ("cond", "eq1", y.f, n == "ne")
+                    x, y = y, x
+                if y.kind == "one" and x.kind == "var":
+                    # `z == 1` makes that operand dimensionless; `z² == 1` (or any other power) does not pin z and is
+                    # a representation-dependent test
+                    if len(x.f) == 1 and x.f[0][1] == 1:
+                        return ("cond", "eq1", x.f, n == "ne")
+                    if x.f == form():
+                        return ("cond", "cmp", (x, y), n == "ne")
+                    self.err(term, "a quantity of Jacobian weight %s is compared with the constant one" % dict(x.f))
+                    return TOP
+                if x.kind == "var" and y.kind == "var" and x.f != y.f and len(x.f) == 1 and len(y.f) == 1 and x.f[0][1] == y.f[0][1] == 1:
+                    # `z1 == z2`: on the true edge both operands share one scale
+                    return ("cond", "unify", (x.f[0][0], y.f[0][0]), n == "ne")
                 self.same(term, x, y, "comparison")
                 return ("cond", "cmp", (x, y), n == "ne")
             if isinstance(x, Adt) and isinstance(y, Adt) and x.name == G:
@@ -301,6 +311,16 @@ class WeightDomain:
             return W(form(), "zero")
         return TOP
 
+    def _envs(self, fr):
+        """The frame's own environment plus those of the holder frames its references point to."""
+        out = [fr.env]
+        seen = {id(fr)}
+        for v in list(fr.env.values()):
+            if isinstance(v, Ref) and id(v.frame) not in seen and v.frame.body is fr.body:
+                seen.add(id(v.frame))
+                out.append(v.frame.env)
+        return out
+
     def refine(self, ex, fr, cond, truth):
         _, what, f, negated = cond
         pc = list(fr.env.get("__pc", ()))
@@ -308,9 +328,18 @@ class WeightDomain:
             pc.append(("z==1", dict(f), truth != negated))
             if truth != negated:
                 syms = {k for k, _ in f}
-                for l, v in list(fr.env.items()):
-                    if l != "__pc":
-                        fr.env[l] = self.subst0(v, syms)
+                for env in self._envs(fr):
+                    for l, v in list(env.items()):
+                        if l != "__pc":
+                            env[l] = self.subst0(v, syms)
+        elif what == "unify":
+            a, b2 = f
+            pc.append(("z1==z2", truth != negated))
+            if truth != negated:
+                for env in self._envs(fr):
+                    for l, v in list(env.items()):
+                        if l != "__pc":
+                            env[l] = self.rename(v, b2, a)
         elif what == "cmp":
             x, y = f
             pc.append(("cmp", x.cls, y.cls, dict(x.f), truth != negated))
@@ -321,9 +350,10 @@ class WeightDomain:
             meaning = f[2][truth]
             pc.append(("is_zero", w.vid, dict(w.f), w.cls, meaning == "None"))
             if meaning == "None":
-                for l, v in list(fr.env.items()):
-                    if l != "__pc":
-                        fr.env[l] = self.zero_vid(v, w.vid)
+                for env in self._envs(fr):
+                    for l, v in list(env.items()):
+                        if l != "__pc":
+                            env[l] = self.zero_vid(v, w.vid)
             # fix the variant in the environment so that later projections see Some / Continue
             for l, v in list(fr.env.items()):
                 if isinstance(v, Adt) and isinstance(v.variant, tuple) and v.variant[0] == "?" and v.variant[1] is w:
@@ -333,10 +363,26 @@ class WeightDomain:
             w = f
             pc.append(("is_zero", w.vid, dict(w.f), w.cls, truth != negated))
             if truth != negated:
-                for l, v in list(fr.env.items()):
-                    if l != "__pc":
-                        fr.env[l] = self.zero_vid(v, w.vid)
+                for env in self._envs(fr):
+                    for l, v in list(env.items()):
+                        if l != "__pc":
+                            env[l] = self.zero_vid(v, w.vid)
         fr.env["__pc"] = tuple(pc)
+
+    def rename(self, v, old, new):
+        if isinstance(v, W):
+            if any(k == old for k, _ in v.f):
+                d = {}
+                for k, c in v.f:
+                    k2 = new if k == old else k
+                    d[k2] = d.get(k2, 0) + c
+                return v.variant(f=form(d))
+            return v
+        if isinstance(v, Adt):
+            return Adt(v.name, v.variant, [self.rename(x, old, new) for x in v.fields])
+        if isinstance(v, Tup):
+            return Tup([self.rename(x, old, new) for x in v.items])
+        return v
 
     def zero_vid(self, v, vid):
         if isinstance(v, W):
@@ -454,7 +500,7 @@ def rule_weight_group(prop, repo):
         hf = ("byref", gpoint("s"))
         dom, rs = run_fn(F, b, [hf])
         ks = [is_point_form(v) for v, _ in rs]
-        report(b, dom, "%s:weight:double" % prop, len(rs) == 1 and ks[0] == {"s": 4}, "doubling does not return weights (8s,12s,4s): %s" % ks,
+        report(b, dom, "%s:weight:double" % prop, len(rs) >= 1 and all(k is not None for k in ks) and {"s": 4} in ks, "doubling does not return weights (2k,3k,k) on every path (k = 4s on the general one): %s" % ks,
                {"fn": "G::double", "k": str(ks[:1]), "idiom": "(u+v)²−u²−v² ⇒ 2uv recognised through value numbering"})
     b = get("<crate::groups::G<P> as core::ops::Neg>::neg")
     if b:
